@@ -140,7 +140,7 @@ CHECKS = {
         level="exploration",
         text="Seeded search over interleavings of the real timer thread (BasicDelayedEventQueue on a simulated libevent) with the interpreter thread, "
              "with adversarial time advance, stalls and spurious wake-ups; oracles not-early, due-order, at-most-once, cancelled-never-delivered, "
-             "nothing lost at quiescence (also across snapshots taken by serialize() while timers are pending, 12% of the plans), plus kernel-detected deadlock / use-after-free / double-free / crash. Sampling, not proof.",
+             "nothing lost at quiescence (also across snapshots taken by serialize() while timers are pending, 12% of the plans; 10% of the runs drive the queue directly through the DelayedEventQueue interface from one or two caller tasks, including enqueues that replace a pending registration with the same UUID), plus kernel-detected deadlock / use-after-free / double-free / crash. Sampling, not proof.",
         ref="DESIGN.md 6/C09",
         note="libevent is a model of its timer subset (simevent); pre-emption only at synchronisation and simevent entry points; scheduler and clock are simulated.",
         technique=TECH + "seeded schedule search of timer task vs interpreter task over simulated libevent and clock; history oracles + kernel deadlock/UAF detection"),
